@@ -31,7 +31,7 @@ def gen_cases(tier, seed):
         hasblk = False
         for j in range(k):
             kind = r.choice(["fifo", "sock", "chr", "chr", "chr"] + (["blk"] if r.random() < 0.15 else []))
-            p = ("node%d" % j) if sole else r.choice(["src/node%d" % j, "src/sub/node%d" % j])
+            p = ("node%d" % j) if sole else r.choice(["src/node%d" % j, "src/sub/node%d" % j, "src/sub/n\xffode%d" % j])
             e = {"p": p, "k": kind, "mode": r.choice([0o644, 0o600, 0o666, 0o777, 0o000, 0o640, 0o444, 0o622, r.randrange(0o1000), 0o1666, 0o2664, 0o4755, 0o7777])}
             if kind in ("chr", "blk"):
                 e["rdev"] = list(r.choice(DEVS))
@@ -43,7 +43,9 @@ def gen_cases(tier, seed):
             viaL = True
         else:
             viaL = False
-        prior = r.choice(["fresh", "fresh", "file", "node", "link-live", "link-dangling"])
+        prior = r.choice(["fresh", "fresh", "file", "node", "link-live", "link-dangling", "dir"])
+        if prior == "dir" and sole:
+            prior = "fresh"      # `xcp node dir` copies *into* the directory: not a collision
         noclobber = prior != "fresh" and r.random() < 0.25
         pre = []
         if sole:
@@ -58,6 +60,8 @@ def gen_cases(tier, seed):
             pre.append({"p": dstp, "k": r.choice(["fifo", "sock"]), "mode": 0o1751})
         elif prior == "link-live":
             pre += [{"p": "elsewhere", "k": "f", "size": 7, "seed": 8, "segs": None}, {"p": dstp, "k": "l", "target": ("../" * dstp.count("/")) + "elsewhere"}]
+        elif prior == "dir":
+            pre += [{"p": dstp, "k": "d"}, {"p": dstp + "/precious", "k": "f", "size": 9, "seed": 6, "segs": None}]
         elif prior == "link-dangling":
             pre.append({"p": dstp, "k": "l", "target": "nowhere-at-all"})
         args = ["--driver", driver, "-w", str(r.choice([1, 2, 4]))] + (["-n"] if noclobber else [])
@@ -91,6 +95,15 @@ def run_case(case):
                     res["viol"].append({"sig": "%s:opened-special:%s" % (case["driver"], specials[ev["path"]]),
                                         "what": "open() of special source %s (%s) by %s; %s" % (ev["path"][len(root) + 1:], specials[ev["path"]], ev.get("role"), tag)})
         res["counters"]["opens-monitored"] = nopen
+        if case["prior"] == "dir":
+            # a node can never replace a non-empty directory: the run must fail and the directory must survive
+            pr = case["dstp"] + "/precious"
+            if run.exit0:
+                res["viol"].append({"sig": "%s:node-onto-directory-exit0" % case["driver"], "what": "a node maps onto the non-empty directory %s but xcp exited 0; %s" % (case["dstp"], tag)})
+            if post.get(pr, {}).get("sha") != pre[pr]["sha"]:
+                res["viol"].append({"sig": "%s:directory-destroyed" % case["driver"], "what": "%s was destroyed while trying to place a node at %s; %s" % (pr, case["dstp"], tag)})
+            res["evals"].append({"key": [case["driver"], "prior-dir", case["sole"]]})
+            return res
         if case["hasblk"]:
             if run.exit0:
                 res["viol"].append({"sig": "%s:block-device-exit0" % case["driver"], "what": "tree contains a block device but xcp exited 0; " + tag})
